@@ -99,8 +99,10 @@ Definition copy_node (umask : N) (src : node) : node :=
 
 (* the worker body for Operation::Special *)
 Inductive sp_action := SpUnlink | SpMknod (n : node).
-Definition special_worker (no_clobber : bool) (target_exists : bool) (umask : N) (src : node)
+Definition special_worker (no_clobber : bool) (target_exists : bool) (same_file : bool) (umask : N) (src : node)
   : option (list sp_action) :=      (* None = error exit *)
+  (* same_file = is_same_file(from, to): the existing target IS the source node reached through an alias (a symlinked
+     directory on the way): it is refused, never unlinked (repair of the C03 defect found in round 3) *)
   if target_exists then
-    if no_clobber then None else Some [SpUnlink; SpMknod (copy_node umask src)]
+    if no_clobber then None else if same_file then None else Some [SpUnlink; SpMknod (copy_node umask src)]
   else Some [SpMknod (copy_node umask src)].
